@@ -26,7 +26,6 @@ use libtw2_net::Net;
 use libtw2_net::Timestamp;
 use std::collections::BTreeMap;
 use std::collections::VecDeque;
-use std::convert::Infallible;
 
 // --------------------------------------------------------------------------------------------
 // canonical text
@@ -175,14 +174,39 @@ fn parse_draws(args: &[&str]) -> VecDeque<[u8; 4]> {
 // --------------------------------------------------------------------------------------------
 // callbacks
 
+/// The error of the harness callbacks: an armed send fault fired (`Callback::send` returned `Err`,
+/// the datagram counts as not sent).
+#[derive(Clone, Copy, Debug, PartialEq, Eq)]
+pub struct SendFail;
+
+/// Armed send faults of one destination: count-downs, `k` = the k-th next `send` fails.
+type Arm = Vec<u32>;
+
+/// one more `send` attempt: does an armed fault fire?
+fn fault_hit(f: &mut Arm) -> bool {
+    let mut hit = false;
+    for k in f.iter_mut() {
+        *k = k.saturating_sub(1);
+        if *k == 0 {
+            hit = true;
+        }
+    }
+    f.retain(|k| *k > 0);
+    hit
+}
+
 struct NCb {
     now: u64,
     draws: VecDeque<[u8; 4]>,
     sent: Vec<(u32, Vec<u8>)>,
+    /// armed send faults per destination address
+    faults: BTreeMap<u32, Arm>,
+    /// datagrams whose `send` failed
+    failed: Vec<(u32, Vec<u8>)>,
 }
 
 impl nx::Callback<u32> for NCb {
-    type Error = Infallible;
+    type Error = SendFail;
     fn secure_random(&mut self, buffer: &mut [u8]) {
         if buffer.len() != 4 {
             panic!("secure_random: unexpected length");
@@ -190,7 +214,17 @@ impl nx::Callback<u32> for NCb {
         let d = self.draws.pop_front().expect("secure_random: no draw supplied");
         buffer.copy_from_slice(&d);
     }
-    fn send(&mut self, addr: u32, data: &[u8]) -> Result<(), Infallible> {
+    fn send(&mut self, addr: u32, data: &[u8]) -> Result<(), SendFail> {
+        if let Some(f) = self.faults.get_mut(&addr) {
+            let hit = fault_hit(f);
+            if f.is_empty() {
+                self.faults.remove(&addr);
+            }
+            if hit {
+                self.failed.push((addr, data.to_vec()));
+                return Err(SendFail);
+            }
+        }
         self.sent.push((addr, data.to_vec()));
         Ok(())
     }
@@ -203,10 +237,18 @@ struct CCb {
     now: u64,
     draws: VecDeque<[u8; 4]>,
     sent: Vec<Vec<u8>>,
+    faults: Arm,
+    failed: Vec<Vec<u8>>,
+}
+
+impl CCb {
+    fn new(now: u64, draws: VecDeque<[u8; 4]>) -> CCb {
+        CCb { now, draws, sent: vec![], faults: vec![], failed: vec![] }
+    }
 }
 
 impl cx::Callback for CCb {
-    type Error = Infallible;
+    type Error = SendFail;
     fn secure_random(&mut self, buffer: &mut [u8]) {
         if buffer.len() != 4 {
             panic!("secure_random: unexpected length");
@@ -214,7 +256,11 @@ impl cx::Callback for CCb {
         let d = self.draws.pop_front().expect("secure_random: no draw supplied");
         buffer.copy_from_slice(&d);
     }
-    fn send(&mut self, data: &[u8]) -> Result<(), Infallible> {
+    fn send(&mut self, data: &[u8]) -> Result<(), SendFail> {
+        if fault_hit(&mut self.faults) {
+            self.failed.push(data.to_vec());
+            return Err(SendFail);
+        }
         self.sent.push(data.to_vec());
         Ok(())
     }
@@ -293,6 +339,10 @@ struct Obs {
     sent: Vec<(u32, Vec<u8>)>,
     events: Vec<String>,
     warns: Vec<String>,
+    /// datagrams whose `Callback::send` returned `Err` (armed fault), in order
+    failed: Vec<(u32, Vec<u8>)>,
+    /// number of `Err(callback error)` results the call handed back (`tick`: one per yielded item)
+    errs: u32,
 }
 
 fn event_str(e: &nx::ChunkOrEvent<u32>) -> String {
@@ -314,23 +364,30 @@ fn nwarn_str(w: &nx::Warning<u32>) -> Option<String> {
     }
 }
 
-fn send_res<E>(r: Result<(), nx::Error<E>>) -> String {
+/// return value of `send` / `send_connless`; a callback error is counted in `errs`, the text stays
+/// `ok` (the chunk was accepted)
+fn send_res<E>(r: Result<(), nx::Error<E>>, errs: &mut u32) -> String {
     match r {
         Ok(()) => "ok".to_string(),
         Err(nx::Error::TooLongData) => "toolong".to_string(),
-        Err(nx::Error::Callback(_)) => "cberr".to_string(),
+        Err(nx::Error::Callback(_)) => {
+            *errs += 1;
+            "ok".to_string()
+        }
     }
 }
 
 /// the call on the real endpoint
-fn run_net(net: &mut Net<u32>, op: &Op, now: u64, draws: VecDeque<[u8; 4]>, pull: Option<usize>) -> Obs {
-    let mut cb = NCb { now, draws, sent: vec![] };
+fn run_net(net: &mut Net<u32>, op: &Op, now: u64, draws: VecDeque<[u8; 4]>, pull: Option<usize>, faults: &mut BTreeMap<u32, Arm>) -> Obs {
+    let mut cb = NCb { now, draws, sent: vec![], faults: std::mem::take(faults), failed: vec![] };
     let mut ws: Vec<nx::Warning<u32>> = vec![];
     let mut events: Vec<String> = vec![];
+    let mut errs = 0u32;
     let r = catch(|| match op {
         Op::Feed(a, bytes) => {
             let mut buf = [0u8; 4096];
-            let (it, _res) = net.feed(&mut cb, &mut ws, *a, bytes, &mut buf[..]);
+            let (it, res) = net.feed(&mut cb, &mut ws, *a, bytes, &mut buf[..]);
+            errs += res.is_err() as u32;
             // the iterator is dropped after `pull` items (None: drained)
             for e in it.take(pull.unwrap_or(usize::MAX)) {
                 events.push(event_str(&e));
@@ -338,44 +395,46 @@ fn run_net(net: &mut Net<u32>, op: &Op, now: u64, draws: VecDeque<[u8; 4]>, pull
             "ok".to_string()
         }
         Op::Connect(a) => {
-            let (pid, _res) = net.connect(&mut cb, *a);
+            let (pid, res) = net.connect(&mut cb, *a);
+            errs += res.is_err() as u32;
             format!("pid.{}", pid.0)
         }
         Op::Accept(pid) => {
-            let _ = net.accept(&mut cb, nx::PeerId(*pid));
+            errs += net.accept(&mut cb, nx::PeerId(*pid)).is_err() as u32;
             "ok".to_string()
         }
         Op::Reject(pid, r) => {
-            let _ = net.reject(&mut cb, nx::PeerId(*pid), r);
+            errs += net.reject(&mut cb, nx::PeerId(*pid), r).is_err() as u32;
             "ok".to_string()
         }
         Op::Disconnect(pid, r) => {
-            let _ = net.disconnect(&mut cb, nx::PeerId(*pid), r);
+            errs += net.disconnect(&mut cb, nx::PeerId(*pid), r).is_err() as u32;
             "ok".to_string()
         }
         Op::Ignore(pid) => {
             net.ignore(nx::PeerId(*pid));
             "ok".to_string()
         }
-        Op::Send(pid, vital, d) => send_res(net.send(&mut cb, nx::Chunk { pid: nx::PeerId(*pid), vital: *vital, data: d })),
+        Op::Send(pid, vital, d) => send_res(net.send(&mut cb, nx::Chunk { pid: nx::PeerId(*pid), vital: *vital, data: d }), &mut errs),
         Op::Flush(pid) => {
-            let _ = net.flush(&mut cb, nx::PeerId(*pid));
+            errs += net.flush(&mut cb, nx::PeerId(*pid)).is_err() as u32;
             "ok".to_string()
         }
-        Op::SendCl(a, d) => send_res(net.send_connless(&mut cb, *a, d)),
+        Op::SendCl(a, d) => send_res(net.send_connless(&mut cb, *a, d), &mut errs),
         Op::Tick => {
             let mut t = net.tick(&mut cb);
             match pull {
                 None => {
-                    for e in t {
-                        match e {}
+                    // drained: the iterator yields one item per peer whose tick reported an error
+                    for SendFail in t {
+                        errs += 1;
                     }
                 }
                 // polled `k` times, then dropped
                 Some(k) => {
                     for _ in 0..k {
-                        if let Some(e) = t.next() {
-                            match e {}
+                        if let Some(SendFail) = t.next() {
+                            errs += 1;
                         }
                     }
                 }
@@ -384,7 +443,8 @@ fn run_net(net: &mut Net<u32>, op: &Op, now: u64, draws: VecDeque<[u8; 4]>, pull
         }
         Op::NeedsTick => "ok".to_string(),
     });
-    Obs { ret: Some(r), sent: cb.sent, events, warns: ws.iter().filter_map(nwarn_str).collect() }
+    *faults = std::mem::take(&mut cb.faults);
+    Obs { ret: Some(r), sent: cb.sent, events, warns: ws.iter().filter_map(nwarn_str).collect(), failed: cb.failed, errs }
 }
 
 // --------------------------------------------------------------------------------------------
@@ -421,11 +481,24 @@ struct Pred {
     /// the datagram came from a peer that is pending acceptance: only "nothing is sent" is claimed
     pending_feed: Option<u32>,
     tag: &'static str,
+    /// datagrams whose `send` fails (the reference's callback has the same armed faults)
+    failed: BTreeMap<u32, Vec<Vec<u8>>>,
+    /// number of callback errors the call reports
+    errs: u32,
+}
+
+/// move what the reference's callback recorded for address `a` into the prediction
+fn collect(p: &mut Pred, a: u32, cb: &mut CCb) {
+    p.sent.insert(a, std::mem::take(&mut cb.sent));
+    let f = std::mem::take(&mut cb.failed);
+    if !f.is_empty() {
+        p.failed.insert(a, f);
+    }
 }
 
 /// the connect request a client sends, produced by a real client connection
 fn client_connect(token: bool) -> Vec<u8> {
-    let mut cb = CCb { now: 0, draws: VecDeque::new(), sent: vec![] };
+    let mut cb = CCb::new(0, VecDeque::new());
     let mut c = Connection::new();
     let _ = c.connect(&mut cb);
     let mut d = cb.sent.pop().unwrap_or_default();
@@ -453,13 +526,15 @@ pub struct World {
     refs: BTreeMap<u32, RefPeer>,
     /// the oracle applies: no address has had two live peers at once, no unexplained divergence yet
     checks: bool,
+    /// armed send faults per destination address (`fail <addr> <k>`)
+    faults: BTreeMap<u32, Arm>,
     // for the generator
     last: Obs,
 }
 
 impl World {
     pub fn new() -> World {
-        World { net: Net::server(), accepting: true, now: 0, dead: false, refs: BTreeMap::new(), checks: true, last: Obs::default() }
+        World { net: Net::server(), accepting: true, now: 0, dead: false, refs: BTreeMap::new(), checks: true, faults: BTreeMap::new(), last: Obs::default() }
     }
 
     fn addr_of(&self, pid: u32) -> Option<u32> {
@@ -474,6 +549,13 @@ impl World {
             // a `Tick` that is never polled: nothing happens at all
             return Some(Pred { ret: "ok".to_string(), tag: "C20/lazy-result", ..Default::default() });
         }
+        if let (Op::Tick, Some(_)) = (op, pull) {
+            if !self.faults.is_empty() {
+                // a partly polled `Tick` stops at the first peer whose send failed: not claimed
+                self.checks = false;
+                return None;
+            }
+        }
         let mut p = self.predict_drained(op, draws)?;
         if let (Op::Feed(..), Some(k)) = (op, pull) {
             // a `ReceivePacket` dropped after `k` items: the application sees a prefix, the
@@ -486,10 +568,13 @@ impl World {
     fn predict_drained(&mut self, op: &Op, draws: &VecDeque<[u8; 4]>) -> Option<Pred> {
         let now = self.now;
         let mut p = Pred { ret: "ok".to_string(), tag: "C20/isolation", ..Default::default() };
-        let mut cb = CCb { now, draws: draws.clone(), sent: vec![] };
+        let mut cb = CCb::new(now, draws.clone());
+        // the reference connection of address `a` sees the send faults armed for `a`
+        let arm = |faults: &BTreeMap<u32, Arm>, a: u32| faults.get(&a).cloned().unwrap_or_default();
         match op {
             Op::Feed(a, bytes) => {
                 let a = *a;
+                cb.faults = arm(&self.faults, a);
                 match self.refs.get_mut(&a) {
                     Some(r) if r.pending => {
                         // Not yet accepted: the application has not consented to anything, so the
@@ -513,8 +598,10 @@ impl World {
                         let mut ws: Vec<cx::Warning> = vec![];
                         let mut evs: Vec<String> = vec![];
                         let mut disc = false;
+                        let mut err = false;
                         let res = catch(|| {
-                            let (it, _res) = r.conn.feed(&mut cb, &mut ws, bytes, &mut buf[..]);
+                            let (it, res) = r.conn.feed(&mut cb, &mut ws, bytes, &mut buf[..]);
+                            err = res.is_err();
                             for c in it {
                                 if let cx::ReceiveChunk::Disconnect(_) = c {
                                     disc = true;
@@ -523,9 +610,10 @@ impl World {
                             }
                         });
                         p.panic = res.is_err();
+                        p.errs += err as u32;
                         p.events = evs;
                         p.warns = ws.iter().filter_map(warn_name).map(|n| format!("p.{}.{}.{}", a, pid, n)).collect();
-                        p.sent.insert(a, std::mem::take(&mut cb.sent));
+                        collect(&mut p, a, &mut cb);
                         if disc {
                             self.refs.remove(&a);
                             p.gone.push((a, pid));
@@ -553,17 +641,19 @@ impl World {
                     self.checks = false;
                     return None;
                 }
+                cb.faults = arm(&self.faults, *a);
                 let mut c = Connection::new();
-                p.panic = catch(|| {
-                    let _ = c.connect(&mut cb);
-                })
-                .is_err();
+                match catch(|| c.connect(&mut cb).is_err()) {
+                    Ok(e) => p.errs += e as u32,
+                    Err(_) => p.panic = true,
+                }
                 p.ret = "pid.?".to_string();
-                p.sent.insert(*a, std::mem::take(&mut cb.sent));
+                collect(&mut p, *a, &mut cb);
                 p.fresh = Some((*a, false, false, c));
             }
             Op::Accept(pid) => {
                 let a = self.addr_of(*pid)?;
+                cb.faults = arm(&self.faults, a);
                 let r = self.refs.get_mut(&a).unwrap();
                 if !r.pending {
                     return None;
@@ -572,29 +662,34 @@ impl World {
                 let mut buf = [0u8; 4096];
                 let mut ws: Vec<cx::Warning> = vec![];
                 let mut evs = 0;
+                let mut err = false;
                 p.panic = catch(|| {
-                    let (it, _res) = r.conn.feed(&mut cb, &mut ws, &dg, &mut buf[..]);
+                    let (it, res) = r.conn.feed(&mut cb, &mut ws, &dg, &mut buf[..]);
+                    err = res.is_err();
                     evs = it.count();
                 })
                 .is_err();
+                p.errs += err as u32;
                 if evs != 0 || ws.iter().any(|w| warn_name(w).is_some()) {
                     // the reference does not digest its own client's connect request
                     p.panic = true;
                 }
                 r.pending = false;
-                p.sent.insert(a, std::mem::take(&mut cb.sent));
+                collect(&mut p, a, &mut cb);
             }
             Op::Reject(pid, reason) | Op::Disconnect(pid, reason) => {
                 let a = self.addr_of(*pid)?;
+                cb.faults = arm(&self.faults, a);
                 let r = self.refs.get_mut(&a).unwrap();
                 if r.pending != matches!(op, Op::Reject(..)) {
                     return None;
                 }
-                p.panic = catch(|| {
-                    let _ = r.conn.disconnect(&mut cb, reason);
-                })
-                .is_err();
-                p.sent.insert(a, std::mem::take(&mut cb.sent));
+                match catch(|| r.conn.disconnect(&mut cb, reason).is_err()) {
+                    Ok(e) => p.errs += e as u32,
+                    Err(_) => p.panic = true,
+                }
+                collect(&mut p, a, &mut cb);
+                // whatever the callback answered: the application has ended this peer
                 self.refs.remove(&a);
                 p.gone.push((a, *pid));
             }
@@ -605,44 +700,50 @@ impl World {
             }
             Op::Send(pid, vital, d) => {
                 let a = self.addr_of(*pid)?;
+                cb.faults = arm(&self.faults, a);
                 let r = self.refs.get_mut(&a).unwrap();
                 match catch(|| r.conn.send(&mut cb, d, *vital)) {
                     Err(_) => p.panic = true,
                     Ok(Ok(())) => {}
                     Ok(Err(cx::Error::TooLongData)) => p.ret = "toolong".to_string(),
-                    Ok(Err(cx::Error::Callback(e))) => match e {},
+                    Ok(Err(cx::Error::Callback(SendFail))) => p.errs += 1,
                 }
-                p.sent.insert(a, std::mem::take(&mut cb.sent));
+                collect(&mut p, a, &mut cb);
             }
             Op::Flush(pid) => {
                 let a = self.addr_of(*pid)?;
+                cb.faults = arm(&self.faults, a);
                 let r = self.refs.get_mut(&a).unwrap();
-                p.panic = catch(|| {
-                    let _ = r.conn.flush(&mut cb);
-                })
-                .is_err();
-                p.sent.insert(a, std::mem::take(&mut cb.sent));
+                match catch(|| r.conn.flush(&mut cb).is_err()) {
+                    Ok(e) => p.errs += e as u32,
+                    Err(_) => p.panic = true,
+                }
+                collect(&mut p, a, &mut cb);
             }
             Op::SendCl(a, d) => {
                 p.tag = "C20/send-connless";
                 let mut buf = [0u8; 2048];
                 match px::Packet::Connless(d).write(&mut buf[..]) {
                     Ok(b) => {
-                        p.sent.insert(*a, vec![b.to_vec()]);
+                        let mut f = arm(&self.faults, *a);
+                        if fault_hit(&mut f) {
+                            p.failed.insert(*a, vec![b.to_vec()]);
+                            p.errs += 1;
+                        } else {
+                            p.sent.insert(*a, vec![b.to_vec()]);
+                        }
                     }
                     Err(_) => p.ret = "toolong".to_string(),
                 }
             }
             Op::Tick => {
                 for (a, r) in self.refs.iter_mut() {
-                    if catch(|| {
-                        let _ = r.conn.tick(&mut cb);
-                    })
-                    .is_err()
-                    {
-                        p.panic = true;
+                    cb.faults = arm(&self.faults, *a);
+                    match catch(|| r.conn.tick(&mut cb).is_err()) {
+                        Ok(e) => p.errs += e as u32,
+                        Err(_) => p.panic = true,
                     }
-                    p.sent.insert(*a, std::mem::take(&mut cb.sent));
+                    collect(&mut p, *a, &mut cb);
                 }
             }
             Op::NeedsTick => {}
@@ -700,6 +801,23 @@ impl World {
                 }
             }
             fail(o, p.tag, format!("datagrams differ from the reference connection's: endpoint {} / reference {}", sent_txt(&obs.sent), sent_txt(&want.iter().flat_map(|(a, v)| v.iter().map(move |d| (*a, d.clone()))).collect::<Vec<_>>())));
+            self.checks = false;
+            return;
+        }
+        // datagrams whose send failed: the same attempts, at the same points, as the reference's
+        let mut got_failed: BTreeMap<u32, Vec<Vec<u8>>> = BTreeMap::new();
+        for (a, d) in &obs.failed {
+            got_failed.entry(*a).or_default().push(d.clone());
+        }
+        if got_failed != p.failed {
+            let flat = |m: &BTreeMap<u32, Vec<Vec<u8>>>| m.iter().flat_map(|(a, v)| v.iter().map(move |d| (*a, d.clone()))).collect::<Vec<_>>();
+            fail(o, "C20/send-fault-isolation", format!("datagrams whose send failed: endpoint {} / reference connection {}", sent_txt(&obs.failed), sent_txt(&flat(&p.failed))));
+            self.checks = false;
+            return;
+        }
+        // every failure of the callback is handed back to the caller, and nothing else is
+        if obs.errs != p.errs || (obs.errs > 0) != !obs.failed.is_empty() {
+            fail(o, "C20/send-error-report", format!("the call reported {} callback error(s), the reference {} ({} send(s) failed)", obs.errs, p.errs, obs.failed.len()));
             self.checks = false;
             return;
         }
@@ -770,8 +888,34 @@ impl World {
         }
     }
 
+    /// `f:<op> …`: the op is executed and checked by the oracle like any other, but the line is not
+    /// compared with the model (both sides print `skip`)
     pub fn exec(&mut self, toks: &[&str], o: &mut Oracle) -> String {
+        if let Some(op) = toks.first().and_then(|t| t.strip_prefix("f:")) {
+            let mut v: Vec<&str> = toks.to_vec();
+            v[0] = op;
+            if op != "new" {
+                o.count("ops_not_compared_with_model");
+                let _ = self.exec_op(&v, o);
+            }
+            return "skip".to_string();
+        }
+        self.exec_op(toks, o)
+    }
+
+    fn exec_op(&mut self, toks: &[&str], o: &mut Oracle) -> String {
         match toks {
+            ["fail", a, k] => {
+                // arm a send fault: the k-th next `Callback::send` to address `a` returns `Err`
+                return match (a.parse::<u32>(), k.parse::<u32>()) {
+                    (Ok(a), Ok(k)) if k >= 1 && k <= 1000 => {
+                        self.faults.entry(a).or_default().push(k);
+                        o.count("send_faults_armed");
+                        "ok".to_string()
+                    }
+                    _ => "bad-op".to_string(),
+                };
+            }
             ["new", k] => {
                 let accepting = *k == "s";
                 *self = World::new();
@@ -813,7 +957,7 @@ impl World {
         let pull = parse_pull(toks);
         let pred = if self.checks { self.predict(&op, &draws, pull) } else { None };
         let had_claim = pred.is_some();
-        let obs = run_net(&mut self.net, &op, self.now, draws, pull);
+        let obs = run_net(&mut self.net, &op, self.now, draws, pull, &mut self.faults);
         if pull.is_some() {
             o.count("partly_consumed_results");
         }
@@ -851,14 +995,22 @@ impl World {
                 if self.refs.values().any(|r| r.pending) && online >= 1 {
                     o.count("ops_with_pending_and_online_peers");
                 }
-                format!(
+                o.add("sends_failed", obs.failed.len() as u64);
+                let line = format!(
                     "{} s={} e={} w={} nt={}",
                     r,
                     list_str(obs.sent.iter().map(|(a, d)| format!("{}@{}", a, parse_sent(d).text))),
                     list_str(obs.events.iter().cloned()),
                     list_str(obs.warns.iter().cloned()),
                     nt
-                )
+                );
+                if obs.failed.is_empty() && obs.errs == 0 {
+                    line
+                } else {
+                    // a call during which the callback failed: the datagrams not sent, the number of
+                    // errors handed back
+                    format!("{} x={} err={}", line, sent_txt(&obs.failed), obs.errs)
+                }
             }
             None => "bad-op".to_string(),
         };
@@ -968,13 +1120,23 @@ struct Gen<'a> {
     /// every datagram seen in this session (for cross-address replays)
     seen: Vec<Vec<u8>>,
     lines: u64,
+    /// prefix of every further line of this session (`f:` once a send fault has been armed and the
+    /// session is no longer compared with the model; empty otherwise)
+    pfx: &'static str,
+    /// a send fault has been armed in this session
+    faulty: bool,
 }
+
+/// Prefix of the lines of a session from the first `fail` op on.  `f:` = executed and checked by the
+/// oracle, not compared with the Lean model; empty = compared (the model knows send faults).
+const FAULT_PFX: &str = "";
 
 const SIZES: &[usize] = &[0, 1, 1, 2, 3, 8, 15, 16, 17, 64, 200, 700, 1019, 1023];
 const SIZES_EDGE: &[usize] = &[1023, 1024, 1386, 1389, 1390, 1391, 1393, 1394, 1395, 1400];
 
 impl<'a> Gen<'a> {
     fn line(&mut self, l: &str) -> String {
+        let l = &format!("{}{}", self.pfx, l);
         writeln!(self.out, "{}", l).unwrap();
         self.lines += 1;
         let toks: Vec<&str> = l.split_ascii_whitespace().collect();
@@ -1016,7 +1178,7 @@ impl<'a> Gen<'a> {
     fn feed(&mut self, a: u32, bytes: &[u8]) -> String {
         let d = self.draws();
         // now and then the application drops the returned iterator early
-        let k = if self.rng.chance(1, 25) { format!(" k={}", self.rng.below(3)) } else { String::new() };
+        let k = if !self.faulty && self.rng.chance(1, 25) { format!(" k={}", self.rng.below(3)) } else { String::new() };
         let l = format!("feed {} {} {} {}{}", a, to_hex(bytes), parses(bytes), d, k);
         self.line(&l)
     }
@@ -1024,7 +1186,7 @@ impl<'a> Gen<'a> {
     /// run something on a remote connection and collect what it sends
     fn remote_do<F: FnOnce(&mut Connection, &mut CCb)>(&mut self, a: u32, f: F) {
         let now = self.w.now;
-        let mut cb = CCb { now, draws: VecDeque::new(), sent: vec![] };
+        let mut cb = CCb::new(now, VecDeque::new());
         for _ in 0..3 {
             let t = self.rng.next() as u32 | 0x0100;
             cb.draws.push_back(t.to_be_bytes());
@@ -1130,6 +1292,8 @@ impl<'a> Gen<'a> {
         let server = self.rng.chance(4, 5);
         self.remotes.clear();
         self.seen.clear();
+        self.pfx = "";
+        self.faulty = false;
         self.line(if server { "new s" } else { "new c" });
         if HAVE_HOOK && self.rng.chance(1, 3) {
             // the peer id counter about to wrap
@@ -1151,6 +1315,352 @@ impl<'a> Gen<'a> {
             }
             self.step();
         }
+    }
+
+    // ---- send faults ------------------------------------------------------------------------
+
+    /// arm a send fault: the k-th next `Callback::send` to address `a` fails
+    fn arm(&mut self, a: u32, k: u32) {
+        if !self.faulty {
+            self.faulty = true;
+            self.pfx = FAULT_PFX;
+        }
+        self.line(&format!("fail {} {}", a, k));
+    }
+
+    /// everything in flight between the endpoint and the remote at `a` is delivered, `rounds` times
+    fn pump(&mut self, a: u32, rounds: usize) {
+        for _ in 0..rounds {
+            let inbox = std::mem::take(&mut self.remotes.entry(a).or_insert_with(Remote::new).inbox);
+            for d in inbox {
+                self.remote_do(a, |c, cb| {
+                    let mut buf = [0u8; 4096];
+                    let mut ws: Vec<cx::Warning> = vec![];
+                    let (it, _r) = c.feed(cb, &mut ws, &d, &mut buf[..]);
+                    let _ = it.count();
+                });
+            }
+            let outbox = std::mem::take(&mut self.remotes.get_mut(&a).unwrap().outbox);
+            for d in outbox {
+                if self.w.dead {
+                    return;
+                }
+                self.feed(a, &d);
+            }
+        }
+    }
+
+    fn pid_at(&self, a: u32) -> Option<u32> {
+        self.w.refs.get(&a).map(|r| r.pid)
+    }
+
+    /// a fresh remote client at `a` asks for a connection (with / without the token extension)
+    fn remote_connects(&mut self, a: u32, token: bool) {
+        self.remotes.insert(a, Remote::new());
+        self.remote_do(a, |c, cb| {
+            let _ = c.connect(cb);
+        });
+        if !token {
+            if let Some(d) = self.remotes.get_mut(&a).and_then(|r| r.outbox.last_mut()) {
+                if d.len() >= 8 {
+                    let n = d.len() - 8;
+                    d.truncate(n);
+                }
+            }
+        }
+        self.pump(a, 1);
+    }
+
+    /// Bring address `a` to a stage: 0 = pending acceptance, 1 = accepted (connection `Pending`),
+    /// 2 = online (accepted peer), 3 = connecting (`Net::connect`), 4 = online (outgoing peer).
+    fn bring(&mut self, a: u32, stage: u32) {
+        match stage {
+            0 | 1 | 2 => {
+                let token = self.rng.chance(2, 3);
+                self.remote_connects(a, token);
+                if stage >= 1 {
+                    if let Some(pid) = self.pid_at(a) {
+                        let d = self.draws();
+                        self.line(&format!("accept {} {}", pid, d));
+                    }
+                }
+                if stage >= 2 {
+                    self.pump(a, 2);
+                    // the acceptor goes online with the first chunk packet
+                    self.remote_do(a, |c, cb| {
+                        let _ = c.send(cb, b"hi", true);
+                        let _ = c.flush(cb);
+                    });
+                    self.pump(a, 2);
+                }
+            }
+            _ => {
+                self.remotes.insert(a, Remote::new());
+                if !self.w.refs.contains_key(&a) {
+                    self.line(&format!("connect {}", a));
+                }
+                if stage >= 4 {
+                    self.pump(a, 3);
+                }
+            }
+        }
+    }
+
+    /// the remote at `a` says something (data, or nothing new: just a tick's worth of traffic)
+    fn remote_talks(&mut self, a: u32) {
+        if self.remotes.get(&a).map(|r| r.kind() == "Online").unwrap_or(false) {
+            let d = self.payload();
+            self.remote_do(a, |c, cb| {
+                let _ = c.send(cb, &d, true);
+                let _ = c.flush(cb);
+            });
+        }
+    }
+
+    /// What makes the consequences of a fault visible: the deadline, data from the old peer, ticks
+    /// past both timeouts (with retransmissions of the remote), a reconnect from the same address.
+    fn aftermath(&mut self, a: u32) {
+        self.line("needs_tick");
+        self.remote_talks(a);
+        self.pump(a, 2);
+        for ms in [500u64, 1, 499, 1000] {
+            if self.w.dead {
+                return;
+            }
+            self.line(&format!("time {}", ms));
+            self.remote_do(a, |c, cb| {
+                let _ = c.tick(cb);
+            });
+            self.line("tick");
+            self.pump(a, 1);
+        }
+        if self.w.dead {
+            return;
+        }
+        // the same address asks again
+        if self.w.accepting || self.rng.chance(1, 3) {
+            let token = self.rng.chance(1, 2);
+            self.remote_connects(a, token);
+            if let Some((pid, true)) = self.w.refs.get(&a).map(|r| (r.pid, r.pending)) {
+                let d = self.draws();
+                self.line(&format!("accept {} {}", pid, d));
+                self.pump(a, 2);
+                self.remote_talks(a);
+                self.pump(a, 2);
+            }
+        } else if !self.w.refs.contains_key(&a) {
+            self.line(&format!("connect {}", a));
+            self.pump(a, 3);
+        }
+        self.line("needs_tick");
+    }
+
+    /// A session with a send fault right before one kind of call that sends, for the peer of one
+    /// of several addresses (the others are bystanders at random stages), followed by the aftermath
+    /// and random further traffic (with more faults).
+    fn fault_session(&mut self, kind: u32, steps: usize) {
+        let server = kind != 12 && self.rng.chance(5, 6);
+        self.remotes.clear();
+        self.seen.clear();
+        self.pfx = "";
+        self.faulty = false;
+        self.line(if server { "new s" } else { "new c" });
+        let n = 2 + self.rng.below(2) as u32;
+        self.addrs = (1..=n).collect();
+        let t = self.addr();
+        // bystanders
+        for a in self.addrs.clone() {
+            if a != t && self.rng.chance(2, 3) {
+                let st = if server { *self.rng.pick(&[0u32, 1, 2, 2, 4]) } else { *self.rng.pick(&[3u32, 4]) };
+                self.bring(a, st);
+            }
+        }
+        // which send fails: mostly the next one
+        let k = *self.rng.pick(&[1u32, 1, 1, 1, 2]);
+        let stage_in = |g: &mut Gen, stages: &[u32]| if server { *g.rng.pick(stages) } else { *g.rng.pick(&[3u32, 4]) };
+        match kind {
+            // reject of a pending peer
+            0 => {
+                self.bring(t, if server { 0 } else { 3 });
+                if let Some(pid) = self.pid_at(t) {
+                    self.arm(t, 1);
+                    let r = self.reason();
+                    if server {
+                        self.line(&format!("reject {} {}", pid, to_hex(&r)));
+                    } else {
+                        self.line(&format!("disconnect {} {}", pid, to_hex(&r)));
+                    }
+                }
+            }
+            // disconnect at every stage after the decision
+            1 | 2 => {
+                let st = stage_in(self, &[1, 2, 2, 3, 4]);
+                self.bring(t, st);
+                if let Some(pid) = self.pid_at(t) {
+                    if kind == 2 {
+                        // with something queued and unacknowledged
+                        self.line(&format!("send {} v 0102", pid));
+                    }
+                    self.arm(t, 1);
+                    let r = self.reason();
+                    self.line(&format!("disconnect {} {}", pid, to_hex(&r)));
+                }
+            }
+            // accept: the ConnectAccept is not sent
+            3 => {
+                self.bring(t, if server { 0 } else { 3 });
+                if let (Some(pid), true) = (self.pid_at(t), server) {
+                    self.arm(t, k);
+                    let d = self.draws();
+                    self.line(&format!("accept {} {}", pid, d));
+                }
+            }
+            // connect: the connect request is not sent
+            4 => {
+                self.remotes.insert(t, Remote::new());
+                self.arm(t, k);
+                self.line(&format!("connect {}", t));
+            }
+            // send with an implicit flush
+            5 => {
+                let st = stage_in(self, &[2, 4]);
+                self.bring(t, st);
+                if let Some(pid) = self.pid_at(t) {
+                    let n = 700 + self.rng.below(300) as usize;
+                    let big = self.rng.bytes(n);
+                    self.line(&format!("send {} v {}", pid, to_hex(&big)));
+                    self.arm(t, 1);
+                    let v = if self.rng.chance(1, 2) { "v" } else { "n" };
+                    self.line(&format!("send {} {} {}", pid, v, to_hex(&big)));
+                    self.line(&format!("flush {}", pid));
+                }
+            }
+            // flush
+            6 => {
+                let st = stage_in(self, &[2, 4]);
+                self.bring(t, st);
+                if let Some(pid) = self.pid_at(t) {
+                    let d = self.payload();
+                    self.line(&format!("send {} v {}", pid, to_hex(&d)));
+                    self.line(&format!("send {} n 07", pid));
+                    self.arm(t, 1);
+                    self.line(&format!("flush {}", pid));
+                }
+            }
+            // tick with a due timer: keep-alive / retransmitted handshake datagram / queued data
+            7 => {
+                let st = stage_in(self, &[1, 2, 3, 4]);
+                self.bring(t, st);
+                if let (Some(pid), true) = (self.pid_at(t), self.rng.chance(1, 2)) {
+                    self.line(&format!("send {} v 0a0b", pid));
+                }
+                self.line("time 500");
+                self.arm(t, 1);
+                self.line("tick");
+            }
+            // tick with a due retransmission, one datagram and several
+            8 | 9 => {
+                let st = stage_in(self, &[2, 4]);
+                self.bring(t, st);
+                if let Some(pid) = self.pid_at(t) {
+                    let n = if kind == 8 { 1 } else { 3 + self.rng.below(3) };
+                    for i in 0..n {
+                        let d = vec![i as u8; 600 + self.rng.below(200) as usize];
+                        self.line(&format!("send {} v {}", pid, to_hex(&d)));
+                    }
+                    self.line(&format!("flush {}", pid));
+                    // all of it is lost
+                    if let Some(r) = self.remotes.get_mut(&t) {
+                        r.inbox.clear();
+                    }
+                    self.line("time 1000");
+                    let k = if kind == 8 { 1 } else { 1 + self.rng.below(3) as u32 };
+                    self.arm(t, k);
+                    self.line("tick");
+                    self.line(&format!("flush {}", pid));
+                }
+            }
+            // a datagram that triggers an answer: the remote's ConnectAccept (answer: Accept), a
+            // resend request (answer: the retransmission)
+            10 => {
+                if self.rng.chance(1, 2) {
+                    self.bring(t, 3);
+                    let inbox = std::mem::take(&mut self.remotes.entry(t).or_insert_with(Remote::new).inbox);
+                    for d in inbox {
+                        self.remote_do(t, |c, cb| {
+                            let mut buf = [0u8; 4096];
+                            let mut ws: Vec<cx::Warning> = vec![];
+                            let (it, _r) = c.feed(cb, &mut ws, &d, &mut buf[..]);
+                            let _ = it.count();
+                        });
+                    }
+                    self.arm(t, 1);
+                    self.pump(t, 1);
+                } else {
+                    let st = stage_in(self, &[2, 4]);
+                    self.bring(t, st);
+                    if let Some(pid) = self.pid_at(t) {
+                        for i in 0..(1 + self.rng.below(4)) {
+                            let d = vec![i as u8; 500 + self.rng.below(300) as usize];
+                            self.line(&format!("send {} v {}", pid, to_hex(&d)));
+                        }
+                        self.line(&format!("flush {}", pid));
+                        // the first datagrams are lost; the remote sees a gap and asks for a resend
+                        if let Some(r) = self.remotes.get_mut(&t) {
+                            r.inbox.clear();
+                        }
+                        self.line(&format!("send {} v 0c", pid));
+                        self.line(&format!("flush {}", pid));
+                        let inbox = std::mem::take(&mut self.remotes.entry(t).or_insert_with(Remote::new).inbox);
+                        for d in inbox {
+                            self.remote_do(t, |c, cb| {
+                                let mut buf = [0u8; 4096];
+                                let mut ws: Vec<cx::Warning> = vec![];
+                                let (it, _r) = c.feed(cb, &mut ws, &d, &mut buf[..]);
+                                let _ = it.count();
+                                let _ = c.flush(cb);
+                            });
+                        }
+                        let k = 1 + self.rng.below(2) as u32;
+                        self.arm(t, k);
+                        self.pump(t, 1);
+                    }
+                }
+            }
+            // send_connless
+            11 => {
+                if self.rng.chance(1, 2) {
+                    self.bring(t, 2);
+                }
+                self.arm(t, k);
+                let d = self.payload();
+                self.line(&format!("sendcl {} {}", t, to_hex(&d)));
+                self.line(&format!("sendcl {} {}", t, to_hex(&d)));
+            }
+            // non-accepting endpoint: outgoing connection, faults on everything it sends for a while
+            _ => {
+                self.bring(t, 3);
+                self.arm(t, 2);
+                self.arm(t, 3);
+                self.pump(t, 2);
+            }
+        }
+        if !self.w.dead {
+            self.aftermath(t);
+        }
+        for _ in 0..steps {
+            if self.w.dead {
+                break;
+            }
+            if self.rng.chance(1, 8) {
+                let a = self.addr();
+                let k = *self.rng.pick(&[1u32, 1, 1, 2, 3]);
+                self.arm(a, k);
+            }
+            self.step();
+        }
+        self.pfx = "";
+        self.faulty = false;
     }
 
     fn step(&mut self) {
@@ -1232,7 +1742,9 @@ impl<'a> Gen<'a> {
                 if !self.w.refs.contains_key(&a) {
                     self.remotes.insert(a, Remote::new());
                     self.line(&format!("connect {}", a));
-                } else if self.rng.chance(1, 60) {
+                } else if !self.faulty && self.rng.chance(1, 60) {
+                    // (not under send faults: the model attributes a failed retransmission to the
+                    // address, which is the peer only while an address has one peer)
                     self.line("dup");
                     self.line(&format!("connect {}", a));
                 }
@@ -1281,8 +1793,8 @@ impl<'a> Gen<'a> {
                     }
                 }
                 match self.rng.below(20) {
-                    0 => self.line("tick k=0"),
-                    1 => self.line("tick k=2"),
+                    0 if !self.faulty => self.line("tick k=0"),
+                    1 if !self.faulty => self.line("tick k=2"),
                     _ => self.line("tick"),
                 };
             }
@@ -1431,10 +1943,22 @@ fn gen_all(tier: &str, seed: u64, out: &mut dyn std::io::Write) {
         "search" => (500, 200),
         _ => (350, 200),
     };
-    let mut g = Gen { w: World::new(), out, rng: Rng::new(seed ^ 0x6e65_7420), o: Oracle::new(), remotes: BTreeMap::new(), addrs: vec![1, 2], seen: vec![], lines: 0 };
+    let mut g = Gen { w: World::new(), out, rng: Rng::new(seed ^ 0x6e65_7420), o: Oracle::new(), remotes: BTreeMap::new(), addrs: vec![1, 2], seen: vec![], lines: 0, pfx: "", faulty: false };
     for i in 0..sessions {
         let n = if i % 7 == 0 { steps * 3 } else { steps };
         g.session(n);
+    }
+    // send faults: a fault right before every kind of call that sends, then the consequences
+    let rounds = match tier {
+        "thorough" => 120,
+        "search" => 10,
+        _ => 8,
+    };
+    g.rng = Rng::new(seed ^ 0x6661_756c_7473);
+    for _ in 0..rounds {
+        for kind in 0..13 {
+            g.fault_session(kind, 25);
+        }
     }
 }
 
